@@ -2,12 +2,13 @@ import Driver.Util
 import Driver.Base64
 import Driver.Mime
 import Driver.Net
+import Driver.Headers
 
 open Drv
 
 def dispatch (line : String) : String :=
   let ws := words line
-  let ops : List (List String → Option String) := [base64Op, mimeOp, netOp]
+  let ops : List (List String → Option String) := [base64Op, mimeOp, netOp, headersOp]
   match ops.findSome? (fun f => f ws) with
   | some r => r
   | none => "bad-op"
